@@ -45,6 +45,9 @@ def gen_world(rng, i, tier):
     w["init"] = rng.pick(["null", "sentinel"])
     # the restrictions are process-wide: set by the main thread, they bind a read made by another thread
     w["worker_thread"] = rng.chance(0.2)
+    # the caller's callback may itself use the library (a policy tree whose files do NOT satisfy the rules: its own read is
+    # refused, which is the callback's business and not the outer read's)
+    w["nested"] = rng.chance(0.2)
     w["read"].pop("satisfied", None)
     # /dev/null links inside the tree are symbolic links and would offend the no-symlink rule by themselves:
     # keep them only when that rule is not active so that the enumeration stays single-fault
@@ -179,7 +182,11 @@ def one_plan(world, offences, restricted):
     pro = gen.prologue_ops(read)
     if restricted:
         pro += security_ops(world)
-    r1 = gen.layered_read_ops(read, cb={} if cbv else None, init=world["init"])
+    cb1 = None
+    if cbv:
+        from . import c06 as _c06
+        cb1 = {"nested": _c06.POLICY} if world.get("nested") else {}
+    r1 = gen.layered_read_ops(read, cb=cb1, init=world["init"])
     for o in r1:
         if "tag" in o:
             o["tag"] += "1"
@@ -190,6 +197,9 @@ def one_plan(world, offences, restricted):
             o["tag"] += "2"
     epi += r2
     tree = gen.tree_plan(nodes_for(world, offences))
+    if cbv and world.get("nested"):
+        from . import c06 as _c06
+        tree += [dict(n_, uid=FOREIGN_U, gid=FOREIGN_G) for n_ in _c06.POLICY_NODES]
     if world.get("worker_thread"):
         # setters and reset on the main thread, the restricted read on a second thread
         return {"cfg": dict(world["cfg"], stack_kb=8192), "tree": tree, "prologue": pro, "ops": r1, "epilogue": epi}
@@ -285,6 +295,8 @@ def check(world, plans, results):
         v.probe("satisfied_permission_rule_also_in_force")
     if world.get("worker_thread"):
         v.probe("setters_on_main_thread_read_on_worker_thread")
+    if world.get("nested") and world["ep"].endswith("Cb"):
+        v.probe("callback_reads_a_non_conforming_policy_tree_through_the_library")
     if (world["req_uid"] == NOID and "owner" in world["rules"]) or (world["req_gid"] == NOID and "group" in world["rules"]):
         v.probe("required_id_is_minus_one")
     return v
